@@ -275,9 +275,31 @@ Fixpoint lower (plus : bool) (n : node) : node :=
   | Node t cs => lower_post plus (Node t (map (lower plus) cs))
   end.
 
+(** Does the chain below reach a [?.] link without leaving the chain? *)
+Fixpoint spine_has_optional (n : node) : bool :=
+  match n with
+  | Node (K KOptChain _ _) [Node (Bln true) []; _] => true
+  | Node (K KOptChain _ _) [_; base] => spine_has_optional base
+  | Node (K KMember _ _) [obj; _] => spine_has_optional obj
+  | Node (K KCall _ _) [_; callee; _; _] => spine_has_optional callee
+  | _ => false
+  end.
+
+(** "Same syntax tree up to parentheses": a parenthesis node carries meaning only around an
+    optional chain (it ends the chain's short-circuit scope); all others are dropped before comparing. *)
+Fixpoint strip_parens (n : node) : node :=
+  match n with
+  | Node t cs =>
+      let n' := Node t (map strip_parens cs) in
+      match n' with
+      | Node (K KParen _ _) [e] => if spine_has_optional e then n' else e
+      | _ => n'
+      end
+  end.
+
 (** The validator. [plus] = the [+] operator is enabled in the configuration. *)
 Definition erase_ok (vp : string) (prologue : list node) (plus modified : bool) (pin pout : node) : bool :=
-  node_eqb_nospan (lower plus (erase vp prologue modified pout)) (lower plus pin).
+  node_eqb_nospan (strip_parens (lower plus (erase vp prologue modified pout))) (strip_parens (lower plus pin)).
 
 (** First difference (for reports): path of child indices. *)
 Fixpoint first_diff_nospan (a b : node) {struct a} : option (list nat) :=
@@ -300,16 +322,6 @@ Fixpoint first_diff_nospan (a b : node) {struct a} : option (list nat) :=
 (** ** The printed content re-parses to the same tree (up to what text cannot carry).
     Spans are ignored by [node_eqb_nospan]; parentheses are a property of the text, not of the tree;
     a literal's [raw] spelling may be re-rendered by the printer. *)
-(** Does the chain below reach a [?.] link without leaving the chain? *)
-Fixpoint spine_has_optional (n : node) : bool :=
-  match n with
-  | Node (K KOptChain _ _) [Node (Bln true) []; _] => true
-  | Node (K KOptChain _ _) [_; base] => spine_has_optional base
-  | Node (K KMember _ _) [obj; _] => spine_has_optional obj
-  | Node (K KCall _ _) [_; callee; _; _] => spine_has_optional callee
-  | _ => false
-  end.
-
 Definition norm_post (n : node) : node :=
   match n with
   | Node (K KParen _ _) [e] => if spine_has_optional e then n else e   (* only such parentheses carry meaning *)
